@@ -28,6 +28,10 @@ fn main() {
         std::process::exit(2);
     }
     let sub = args[1].clone();
+    // child-process entries (run in a fresh process so that a stack overflow is an observation)
+    if sub == "c20-flat-deep" {
+        c20::deep_child(args[2].parse().expect("depth"), &args[3]);
+    }
     let mut ctx = Ctx { seed: 1, thorough: false, replay: None };
     let mut out: Option<String> = None;
     let mut i = 2;
